@@ -101,6 +101,17 @@ def mrender (t : Tree) (res : String) (s : MSt) : String :=
   "e=" ++ res ++ "/h=" ++ toString s.head ++ "/hh=" ++ toString s.hhead ++ "/td=" ++ renderTd t s.td ++
   "/st=" ++ idsWhere t (fun i => (s.hdr i).isSome) ++ "/bk=" ++ idsWhere t s.blk
 
+/-- the full dump of a chain fed through both paths (index-level model `XSt`): `st` lists the headers present, `bk` the
+    blocks with bodies -/
+def xrender (t : Tree) (res : String) (s : XSt) : String :=
+  let lk := joinWith "," ((List.range t.ntx).filterMap (fun x => (s.full.lookup x).map (fun l =>
+    toString x ++ ":" ++ toString l.blk ++ ":" ++ toString l.num ++ ":" ++ toString l.idx)))
+  "e=" ++ res ++ "/h=" ++ toString s.full.head ++ "/hh=" ++ toString s.full.hhead ++ "/fh=" ++ toString s.full.fhead ++
+  "/c=" ++ renderCanon t s.full.canon ++ "/td=" ++ renderTd t s.full.td ++ "/lk=" ++ lk ++
+  "/st=" ++ idsWhere t (fun i => (s.hdrs i).isSome) ++ "/rc=" ++ idsWhere t s.full.receipts ++
+  "/sa=" ++ idsWhere t s.full.hasState ++ "/od=" ++ idsWhere t s.full.onDisk ++
+  "/bk=" ++ idsWhere t (fun i => (s.full.store i).isSome)
+
 /-- the same fields of an observed dump -/
 def projMixed (d : String) : String :=
   joinWith "/" ((d.splitOn "/").filter (fun f =>
@@ -260,6 +271,18 @@ def specC03 (t : Tree) (headers : Bool) (d : Dump) : Option String :=
         else some "lookups-differ-from-canonical-transactions"
   | _, _ => some "head-unknown"
 
+/-- C03 on the dump of a mixed history: the number index is the ancestry of the header head and nothing is indexed
+    above it (what only full imports provide is judged by the harness against the chain of the block head) -/
+def specC03Mixed (t : Tree) (d : Dump) : Option String :=
+  match blkOf t d.hh with
+  | some hb =>
+    let fuel := t.maxH + 2
+    let idxBad := (List.range (t.maxH + 3)).any fun n =>
+      let got := (d.canon.getD n none)
+      if n ≤ hb.number then got != ancestorAt t fuel d.hh n else got != none
+    if idxBad then some "index-does-not-describe-the-chain-of-the-header-head" else none
+  | none => some "head-unknown"
+
 /-- C02 on a dump: td recurrence for every stored block whose parent td is recorded; the head is at least as heavy as
     every stored block that has its state (fully validated), when `importsOnly`. -/
 def specC02 (t : Tree) (headers importsOnly : Bool) (d : Dump) : Option String :=
@@ -287,6 +310,7 @@ inductive Cands
   | full (cs : List St)
   | hdrs (cs : List HSt)
   | mixed (cs : List MSt)
+  | xmixed (cs : List XSt)
 
 def stepND (t : Tree) (c : Cands) (op : Op) : List (Cands × String) :=
   match c, op with
@@ -308,6 +332,18 @@ def stepND (t : Tree) (c : Cands) (op : Op) : List (Cands × String) :=
     (cs.flatMap fun s => mImportChainND t s (blocksOf t ids)).map fun (s, r) => (.mixed [s], mrender t r s)
   | .mixed cs, .hdr ids =>
     (cs.flatMap fun s => mImportHeadersND t s (blocksOf t ids)).map fun (s, r) => (.mixed [s], mrender t r s)
+  | .xmixed cs, .ins ids =>
+    (cs.flatMap fun s =>
+      let chain := blocksOf t ids
+      (importChainND t (raiseTop s.full chain) chain).map fun (st, r) =>
+        (({ full := st, hdrs := fun k => match st.store k with | some b => some b | none => s.hdrs k } : XSt), r)).map
+      fun (s, r) => (.xmixed [s], xrender t r s)
+  | .xmixed cs, .hdr ids =>
+    (cs.flatMap fun s =>
+      let chain := blocksOf t ids
+      (hImportChainND t (toH s) chain).map fun (h, r) =>
+        (({ full := { raiseTop s.full chain with td := h.td, canon := h.canon, hhead := h.hhead }, hdrs := h.store } : XSt), r)).map
+      fun (s, r) => (.xmixed [s], xrender t r s)
   | _, _ => []
 
 def mergeCands (xs : List Cands) : Cands :=
@@ -316,7 +352,9 @@ def mergeCands (xs : List Cands) : Cands :=
     | .full a, .full b => .full (a ++ b)
     | .hdrs a, .hdrs b => .hdrs (a ++ b)
     | .mixed a, .mixed b => .mixed (a ++ b)
-    | a, _ => a) (match xs with | (.hdrs _) :: _ => .hdrs [] | (.mixed _) :: _ => .mixed [] | _ => .full [])
+    | .xmixed a, .xmixed b => .xmixed (a ++ b)
+    | a, _ => a) (match xs with
+      | (.hdrs _) :: _ => .hdrs [] | (.mixed _) :: _ => .mixed [] | (.xmixed _) :: _ => .xmixed [] | _ => .full [])
 
 /-- replay; returns (model output, agreed?, index of first mismatch, spec verdict on the Go dump at the mismatch) -/
 def replay (prop : String) (t : Tree) (headers : Bool) (c0 : Cands) (ops : List Op) (dumps : List String)
@@ -330,14 +368,16 @@ def replay (prop : String) (t : Tree) (headers : Bool) (c0 : Cands) (ops : List 
     | op :: ops', d :: dumps' =>
       let importsOnly := importsOnly && (match op with | .setHead _ => false | _ => true)
       let outs := stepND t c op
-      let good := outs.filter fun x => if mixed then x.2 == projMixed d else proj prop x.2 == proj prop d
+      let good := outs.filter fun x =>
+        if mixed && prop == "C02" then x.2 == projMixed d else proj prop x.2 == proj prop d
       match good with
       | [] =>
         let shown := match outs with | x :: _ => x.2 | [] => "no-model-outcome"
         let why := match parseDump d with
           | none => some "unparsable-dump"
           | some pd =>
-            if mixed then specC02 t true false pd
+            if mixed && prop == "C02" then specC02 t true false pd
+            else if mixed then specC03Mixed t pd
             else if prop == "C02" then specC02 t headers importsOnly pd else specC03 t headers pd
         (joinWith ";" acc.reverse ++ ";mismatch@" ++ toString k ++ ":" ++ shown, false, why)
       | _ =>
@@ -347,7 +387,7 @@ def replay (prop : String) (t : Tree) (headers : Bool) (c0 : Cands) (ops : List 
         -- rest of the history is not compared: the model bounds Go's unbounded deletion loops by the height of the
         -- header head, which is only justified while nothing is indexed above it.
         let broken := prop == "C03" && (match parseDump d with
-          | some pd => (specC03 t headers pd).isSome
+          | some pd => if mixed then (specC03Mixed t pd).isSome else (specC03 t headers pd).isSome
           | none => false)
         if broken then (joinWith ";" (d :: acc).reverse, true, none)
         else go (mergeCands (good.map (·.1))) ops' dumps' (k + 1) importsOnly (d :: acc)
@@ -374,7 +414,8 @@ def handle (prop : String) (l : String) : String :=
           let ops := ops.filterMap id
           let headers := mode == "headers"
           let mixed := mode == "mixed"
-          let c0 := if mixed then Cands.mixed [minit g]
+          let c0 := if mixed && prop == "C03" then Cands.xmixed [xinit g]
+            else if mixed then Cands.mixed [minit g]
             else if headers then Cands.hdrs [hinit g] else Cands.full [init g (mode == "archive")]
           let dumps := goOut.splitOn ";"
           if dumps.length != ops.length then
